@@ -632,7 +632,66 @@ func (r *Run) slice(fr *Frame, st *State, x *ssa.Slice) *Val {
 			arr := r.load(st, base.P)
 			if arr.K == KArray {
 				n := fmt.Sprint(len(arr.Elems))
-				return &Val{K: KSlice, Ty: x.Type(), Ref: "0", Off: "0", Len: n, Cap: n, FromCell: base.P.Cell}
+				et := x.Type().Underlying().(*types.Slice).Elem()
+				if kindOf(et) == KIface {
+					// argument lists of variadic calls stay on the Go side (fmt.Sprintf expansion needs the boxed values)
+					return &Val{K: KSlice, Ty: x.Type(), Ref: "0", Off: "0", Len: n, Cap: n, FromCell: base.P.Cell}
+				}
+				// materialise the array in symbolic memory; from here on it is only reached through slices
+				r.negRef++
+				ref := itoa(int64(-r.negRef))
+				if hi == "" {
+					hi = n
+				}
+				nv := &Val{K: KSlice, Ty: x.Type(), Ref: ref, Off: lo, Len: simplifySub(hi, lo), Cap: simplifySub(n, lo)}
+				if isByteSlice(x.Type()) {
+					allZero := true
+					var parts []string
+					for _, e := range arr.Elems {
+						if e.T != "0" {
+							allZero = false
+						}
+						parts = append(parts, app("str.from_code", e.T))
+					}
+					var c string
+					if allZero {
+						c = app("zeros", n)
+						st.uses["zeros"] = true
+					} else if len(parts) == 1 {
+						c = parts[0]
+					} else {
+						c = app("str.++", parts...)
+					}
+					hb := r.heapArr(st, "Hb", "String")
+					r.setHeapArr(st, "Hb", "String", app("store", hb, ref, c))
+					st.hbVer = r.nextVer()
+					if lo == "0" && hi == n {
+						nv.Content = c
+						nv.ContentVer = st.hbVer
+					}
+					return nv
+				}
+				for _, lf := range structLeaves(et) {
+					srt := scalarSort(lf.ty)
+					if srt == "" {
+						continue
+					}
+					name := sliceArrayName(et, lf.name)
+					a := r.heapArr(st, name, "(Array Int "+srt+")")
+					cur := app("(as const (Array Int "+srt+"))", zeroTerm(lf.ty))
+					for i, e := range arr.Elems {
+						lv := e
+						if len(lf.path) > 0 {
+							lv = leafVal(e, lf.path)
+						}
+						t := r.termOf(lv)
+						if t != zeroTerm(lf.ty) {
+							cur = app("store", cur, fmt.Sprint(i), t)
+						}
+					}
+					r.setHeapArr(st, name, "(Array Int "+srt+")", app("store", a, ref, cur))
+				}
+				return nv
 			}
 		}
 	}
